@@ -53,7 +53,7 @@ def gen_desc(verif_seed: int, i: int, tier: str = "quick") -> dict:
             else:
                 fl.append({"kind": "ctrl_c", "block": int(2 ** rng.uniform(0, 7))})
         elif r < 0.75:
-            stage = rng.choice(["traversal", "construction", "generation", "transport", "check"])
+            stage = rng.choice(["traversal", "construction", "setup", "generation", "transport", "check"])
             f = {"kind": "internal", "stage": stage, "nth": rng.choice([0, 0, 1, 3])}
             if rng.random() < 0.5:
                 f["op"] = rng.choice(gen.op_keys(udesc))
